@@ -332,8 +332,48 @@ def job_tied(job):
   return r
 
 
+def job_reuse(job):
+  """Concrete: the rewrite step (ModelModifier.modify_model) used twice on
+  one object gives the same, consistent model for tied constants."""
+  import copy
+  from ai_edge_quantizer import model_modifier, params_generator
+  from ai_edge_quantizer import quantizer as quantizer_lib
+  n, cands = 0, []
+  for skel, mb in _tied_skeletons('quick').items():
+    fam = recipes_for(mb)
+    for rname in ('WO+WO', 'DRQ+DRQ', 'FP16+FP16', 'WO4+WO4'):
+      if rname not in fam:
+        continue
+      n += 1
+      inp = flatbuffer_utils.read_model_from_bytearray(bytearray(mb))
+      q = quantizer_lib.Quantizer(mb, copy.deepcopy(fam[rname]))
+      try:
+        params = q._get_quantization_params(None)
+        mm = model_modifier.ModelModifier(mb)
+        first = bytes(mm.modify_model(copy.deepcopy(params)))
+        second = bytes(mm.modify_model(copy.deepcopy(params)))
+      except Exception:  # pylint: disable=broad-except
+        continue  # rejected
+      out2 = flatbuffer_utils.read_model_from_bytearray(bytearray(second))
+      pr = shared_constant_problems(inp, out2)
+      if first != second:
+        pr.append('second modify_model() on the same ModelModifier returns '
+                  'other bytes than the first')
+      if pr:
+        cands.append(Candidate('C15.shared_constant_consistent_on_reuse', {
+            'reuse': True, 'skeleton': skel, 'recipe': rname,
+            'problems': pr[:3]}))
+  st = {'paths': n, 'decisions': n, 'obligations': n,
+        'discharged': n - len(cands), 'solver_calls': 0, 'solver_time': 0.0,
+        'reached': {'pipeline': n}}
+  for c in cands:
+    c.job = job.name
+  return JobResult(job.name, st, cands[:3], [], {}, samples=[
+      f'{n} tied models rewritten twice by one ModelModifier'])
+
+
 def jobs(tier, seed):
-  js = []
+  js = [Job('tied:reuse', job_reuse, {})]
   for skel, mb in _tied_skeletons(tier).items():
     names = list(recipes_for(mb))
     chunk = 12
@@ -348,6 +388,11 @@ def replay(c):
   import copy
   from ai_edge_quantizer import quantizer as quantizer_lib
   d = c['data']
+  if d.get('reuse'):
+    r = job_reuse(Job('tied:reuse', job_reuse, {}))
+    pr = [f"{x.data['skeleton']} {x.data['recipe']}: {x.data['problems'][:2]}"
+          for x in r.candidates]
+    return bool(pr), 'ModelModifier reused', str(pr[:2])
   mb = _tied_skeletons('thorough')[d['skeleton']]
   recipe = recipes_for(mb)[d['recipe']]
   inp = flatbuffer_utils.read_model_from_bytearray(bytearray(mb))
